@@ -49,6 +49,9 @@ def check_protocol(impl, model, path, fname, seed, nedits):
     d = fields(o)
     if 'CRASH' in o or 'ERROR' in o or not all(k in d for k in ('init', 'dup', 'script', 'work', 'final', 'readd')):
         return 'implementation failed: %s' % o[-300:], None
+    for k in ('init', 'dup', 'work', 'final'):
+        if '!' in d[k]:
+            return 'a register number does not lead back to the name it was declared with (state %s): %s' % (k, d[k].split('/')[6][:300]), d
     rc2, mout, merr = vlib.run_lines(model, ['P init=%s script=%s' % (d['init'], d['script'])])
     if rc2 != 0 or not mout or mout[0].startswith('BAD'):
         raise vlib.BuildError('model driver failed: %s %s' % (mout[:1], merr[-300:]))
